@@ -6,10 +6,10 @@ SEQ = "SAT-based bounded model checking (Kani/CBMC) of the real code over symbol
 KM = "; libc replaced by a nondeterministic kernel/descriptor model"
 
 INFO = {
- "C01": dict(level="bounded: every SC interleaving of <=3 threads (1 writer doing 2 stores, 2 readers) within K=3 round-robin rounds of the real half_lock.rs; ghost lifetimes decide use-after-release / double release / release inside an open read section",
+ "C01": dict(level="bounded: every SC interleaving of <=3 threads (1 writer doing 2 stores, 2 readers) within K=3 round-robin rounds of the real half_lock.rs; ghost lifetimes decide use-after-release / double release / release inside an open read section; registry level: every action invocation lies inside an open read section of the data lock",
              note="sequentially consistent interleavings (half_lock.rs declares SeqCst only; weaker orderings are flagged); frees virtualised by stubbing alloc::alloc::dealloc_nonnull; spin iterations that do not advance the round are stutter steps",
              technique=LR),
- "C05": dict(level="bounded: one operation from any valid registry state (<=2 signals, <=3 actions, arbitrary u128 ids) and a fixed 11-step history with symbolic ids, compared with a per-signal ordered-list model",
+ "C05": dict(level="bounded: one operation from any valid registry state (<=2 signals, <=3 actions, arbitrary u128 ids) and fixed histories (ids, stale ids, cross-signal, a foreign handler installed before the take-over and the last action removed), compared with a per-signal ordered-list model; the library's handler with SA_RESTART|SA_SIGINFO stays installed",
              note="std HashMap/BTreeMap replaced by fixed-capacity stand-ins with map semantics; Arc replaced by a counting stand-in; kernel = model (sigaction EINVAL outside 1..64, 32, 33, KILL/STOP)",
              technique=SEQ + KM),
  "C06": dict(level="one sequential step from every well-formed channel state is a 5-bounded FIFO push/pop (inductive step), so every sequential history is covered given the representation invariant; nested clause: a complete send nested at any shim point of a send (tag accounting)",
@@ -21,7 +21,7 @@ INFO = {
  "C13": dict(level="bounded: real pipe.rs for each descriptor kind at any fill level (capacity 3), bursts <=2, plus three rejection causes",
              note="descriptor behaviour is a model (EAGAIN iff full and MSG_DONTWAIT/O_NONBLOCK; ENOTSOCK for send on pipes/files)",
              technique=SEQ + KM),
- "C15": dict(level="bounded: every status (c_int), both registration orders, every arm/disarm/deliver history of length 3 through the real dispatcher; _exit vs exit distinguished by the model",
+ "C15": dict(level="bounded: every status (c_int), both registration orders, every arm/disarm/deliver history of length 3 (thorough: 6) through the real dispatcher; _exit / exit / raw SYS_exit (thread only) / SYS_exit_group distinguished by the model",
              note="process termination is a model event (_exit/exit/abort/killed); atexit machinery itself not modelled",
              technique=SEQ + KM),
  "C16": dict(level="all 2^32 signal numbers x {normal context, inside the signal's own blocked handler}: outcome of the real emulate_default_handler equals the live kernel's default disposition table; names equal the platform's",
@@ -34,7 +34,7 @@ INFO = {
 
 NEST = "SAT-based bounded model checking (Kani/CBMC) of the real code with complete operations nested nondeterministically at the shim points of the interrupted code (signal-handler semantics)"
 INFO.update({
- "C02": dict(level="bounded: one delivery runs exactly its signal's actions once each in id order with one read section per snapshot; mutators publish exactly one snapshot iff they changed something; unregister of any (signal,u128 id); <=2 complete deliveries nested at every shim point of register()/unregister() run the old or the new list, never a mixture",
+ "C02": dict(level="bounded: one delivery runs exactly its signal's actions once each in id order with one read section per snapshot; mutators publish exactly one snapshot iff they changed something; unregister of any (signal,u128 id); <=2 complete deliveries nested at every shim point of register()/unregister() run the old or the new list, never a mixture; a complete register()+delivery of another thread at every point of register() where the writer mutex is free keeps registration order",
              note="maps/Arc/Once stand-ins; deliveries overlapping a mutation are nested on the mutating thread (signal-handler semantics); for deliveries on other threads the clause composes with the half-lock result of C01",
              technique=SEQ + KM),
  "C03": dict(level="bounded: deliveries through the real dispatcher into flag, self-pipe wake, conditional shutdown and the iterator's exfiltrating action, pipe at any fill level: no lock, no spin/yield, no allocator call, no release of a last reference, <=12 shim steps, no write that may block; thorough: against a mutator on another thread (Lal-Reps)",
@@ -43,13 +43,13 @@ INFO.update({
  "C04": dict(level="bounded: for each previous disposition (default, ignore, 1-arg, 3-arg SA_SIGINFO) deliveries before the take-over, at every shim point / system call inside the first registration (the race-fallback window), after it, and inside / after another signal's first registration chain exactly once, first, with the right convention and the kernel's arguments",
              note="integer->fn-pointer transmutes hand out logging trampolines; arrival on another thread during the first registration: thorough tier (Lal-Reps K=3)",
              technique=SEQ + KM),
- "C08": dict(level="bounded: send/recv from any well-formed channel state with a complete send or recv nested at any shim point and one spurious weak-CAS failure: no reachable panic, no waiting, own steps bounded, tags conserved",
+ "C08": dict(level="bounded: send/recv from six concrete channel states (2 queued, 4 queued, full) with a complete send or recv nested before any shim operation (symbolic position) or right after any successful CAS (enumerated) and one spurious weak-CAS failure; up to three spurious failures without nesting: no reachable panic, no waiting (CAS loops bounded, spin_loop goes through the shim), own steps bounded, tags conserved",
              note="representation invariant assumed for the pre-state; <=1 index in flight; 1 nested operation",
              technique=NEST),
- "C09": dict(level="bounded: a complete delivery nested anywhere in a consumer iteration, and a complete consumer iteration of another thread nested anywhere in the delivering action: the consumer never sleeps on the empty self-pipe with a delivered signal unreported",
+ "C09": dict(level="bounded: a complete delivery nested anywhere in a consumer iteration, and a complete consumer iteration of another thread nested anywhere in the delivering action: the consumer (the replicated composition of poll_pending+pending, and the real SignalsInfo::wait) never sleeps on the empty self-pipe with a delivered signal unreported, and obtains a later delivery too",
              note="consumer = SignalDelivery::poll_pending + pending() composed as SignalsInfo::wait does; 4-entry slot table; descriptor model",
              technique=NEST + KM),
- "C10": dict(level="bounded: histories of deliveries (watched / unwatched signal) and pending() batches: yields <= deliveries, nothing unwatched, nothing twice, also under nested deliveries; WithRawSiginfo end to end: 7 deliveries with symbolic payloads, every record a faithful copy of one delivery, in delivery order, at most one per delivery, buffer overflow, a delivery nested in the first load of a batch",
+ "C10": dict(level="bounded: histories of deliveries (watched / unwatched signal) and pending() batches: yields <= deliveries, nothing unwatched, nothing twice, also under nested deliveries and a signal named twice in the constructor; WithRawSiginfo end to end: 7 deliveries with symbolic payloads, every record a faithful copy of one delivery, in delivery order, at most one per delivery, buffer overflow, a delivery nested at the cell-access / after-CAS boundaries of the first two loads of a batch",
              note="SignalOnly and WithRawSiginfo end to end on the backend object; WithOrigin is a pure function of the raw record (C17); batch points concrete",
              technique=SEQ + KM),
  "C11": dict(level="bounded: close() nested at any check of the closed flag / system call of a poll_signal or a blocking wait: Pending only after the callback was consulted and said no; sticky; later calls do not block; a consumer of another thread nested inside close() is never left asleep without a wake-up written after it fell asleep",
@@ -61,7 +61,7 @@ INFO.update({
  "C14": dict(level="bounded: per checked entry point, all 5 forbidden signals never return and change nothing first; every c_int the kernel rejects gives Err with registry, dispositions and captures untouched/released; unchecked entry points pass the kernel verdict through",
              note="release of captures on the panic path (unwinding) is outside",
              technique=SEQ + KM),
- "C18": dict(level="bounded: the writer barrier completes without a second spin when idle (any generation); with readers finished by round K-2 the writer is through in round K-1 (Lal-Reps K=3); lock order data->fallback only; registry and iterator survive poisoned locks",
+ "C18": dict(level="bounded: the writer barrier completes without a second spin when idle (any generation); with readers finished by round K-2 the writer is through in round K-1 (Lal-Reps K=3); no mutator spins or holds a read section while taking a writer mutex when no delivery is in flight; lock order data->fallback only; registry and iterator survive poisoned locks",
              note="starvation by an unbounded stream of overlapping deliveries is outside",
              technique=LR + "; sequential harnesses for poison and lock order"),
 })
